@@ -219,8 +219,11 @@ def explore(harness, max_paths=4000, time_budget=600.0):
             res.obligations.extend(ctx.obligations)
         except PathAbort:
             res.aborted += 1
-            # obligations stated before the abort point still count (they were reachable)
+            # obligations stated before the abort point still count (they were reachable); a path
+            # that was cut on purpose after stating obligations (loop rule) counts as explored
             res.obligations.extend(ctx.obligations)
+            if ctx.obligations:
+                res.paths.append(ctx)
         except Unsupported as e:
             res.unsupported.append(str(e))
         finally:
